@@ -121,6 +121,25 @@ class _Canon(ast.NodeTransformer):
             return ast.copy_location(out, n)
         return n
 
+    def visit_Subscript(self, n):
+        self.generic_visit(n)
+
+        def as_slice(x):
+            if isinstance(x, ast.Call) and isinstance(x.func, ast.Name) and x.func.id == "slice" and 1 <= len(x.args) <= 3 and not x.keywords:
+                a = list(x.args)
+                if len(a) == 1:
+                    a = [ast.Constant(value=None), a[0], ast.Constant(value=None)]
+                while len(a) < 3:
+                    a.append(ast.Constant(value=None))
+                none = lambda e: isinstance(e, ast.Constant) and e.value is None
+                return ast.Slice(lower=None if none(a[0]) else a[0], upper=None if none(a[1]) else a[1], step=None if none(a[2]) else a[2])
+            return x
+        if isinstance(n.slice, ast.Tuple):
+            n.slice = ast.Tuple(elts=[as_slice(e) for e in n.slice.elts], ctx=ast.Load())
+        else:
+            n.slice = as_slice(n.slice)
+        return n
+
     def _collapse_unpack(self, n):
         """(E[0], E[1], ..., E[k-1]) with one call E (what `a, b, c = E` followed by (a, b, c) resolves to) -> E"""
         e = n.elts
